@@ -11,9 +11,9 @@ CLAIMS = {
         'instruction\'s byte order for both) and the fields of an enumeration operand (exactly what its dictionaries give, 0 included). '
         'MatchedOperandSet.generate_bytecode: the part list is exactly prefix codes (later operand first; operand order when reversed), '
         'opcode, suffix codes (operand order; reversed when reversed), opcode suffix, arguments (operand order; reversed exactly when the '
-        'argument order is reversed). The parts built by numeric, address, relative-address, register and enumeration operands have their configured widths, '
-        'alignment, byte order and code values; the remaining operand types (indirect / indexed registers, deferred, numeric enumeration, '
-        'numeric bytecode) are not under contract; ByteCodePart.get_value is an assumed (deterministic, effect-free) contract; '
+        'argument order is reversed). The parts built by numeric, address, relative-address, register, indirect-register, numeric-bytecode and enumeration operands have their configured widths, '
+        'alignment, byte order and code values, and a configured code field is always built (value 0 included); the remaining operand types (indexed / indirect-indexed registers, '
+        'numeric enumeration) are not under contract; ByteCodePart.get_value is an assumed (deterministic, effect-free) contract; '
         'int.to_bytes is axiomatised (validated by sampling); x|y, x&y enter only through exact single-bit / mask identities.'),
  'C02': dict(tech='contract-based deductive verification (pyvc + z3): per-line placement block of the first pass, size/emission contracts of every line class',
    text='Block contract on the body of the engine\'s first pass (placement at the zone cursor / origin value / smallest aligned '
@@ -32,27 +32,35 @@ CLAIMS = {
  'C04': dict(tech='contract-based deductive verification (pyvc + z3): loop invariant of the engine\'s second pass',
    text='Block contract with an inductive invariant on the real second-pass loop: if it completes, all byte-producing lines '
         '(including predefined data blocks, which are in the same sorted list) occupy pairwise disjoint address ranges.',
-   note='Precondition (sorted, distinct lines) is established by list.sort and the loader (assumed); the converse direction '
-        '(disjoint programs are never rejected) is not claimed.'),
+   note='Precondition (sorted, distinct lines) is established by list.sort and the loader (assumed). The converse direction '
+        '(disjoint programs are never rejected) is covered only where it is local: MemoryZoneManager.create_zone rejects exactly a taken name / a zone '
+        'outside GLOBAL (overlapping zones are not rejected), the size a composite (macro) instruction reserves equals what it emits, and every override of '
+        'address / set_start_address / byte_size / generate_bytes found in the source is verified against the abstract line contract.'),
  'C05': dict(tech='contract-based deductive verification (pyvc + z3): MemoryZone contracts, placement block of the engine',
    text='MemoryZone.__init__ / cursor setter raise exactly outside the zone (class invariant start <= cursor <= end+1); the first-pass '
         'block proves every placed line lies inside its zone and origins relative to a zone are offset from its start.',
    note='Also under contract: MemoryZoneManager.create_zone (rejects a taken name, a zone not contained in GLOBAL, inverted or too wide) and the '
         'containment loop of MemoryZoneManager.__init__ (every predefined zone inside GLOBAL); include handling is under the C17 per-line block '
-        '(zone unchanged by an include). The regex parsing of #create_memzone and .memzone lines is not under contract.'),
+        '(zone unchanged by an include). Also: SetMemoryZoneLine / AddressOrgLine / CreateMemzoneLine constructors (the zone of that name, GLOBAL when none; a reused name is rejected whatever its bounds; '
+        'the zone registered is [start, end] inside GLOBAL) and the .memzone / .org branches of the directive factory; the regular expressions themselves are trusted '
+        '(three regex facts: no group of the patterns is optional).'),
  'C06': dict(tech='contract-based deductive verification (pyvc + z3): LabelScope lookup and definition',
    text='Contracts on the recursive LabelScope.get_label_value / set_label_value (and the GlobalLabelScope override): a lookup yields '
         'the value from the first table on the LOCAL->FILE->GLOBAL chain, a definition changes exactly the table of the label\'s kind, '
         'and keywords, duplicates, register names and labels with no scope of their kind are rejected.',
-   note='The loader\'s scope assignment is covered by the per-line block of AssemblyFile.load_line_objects (region kept, reset to the '
-        'file scope, or a fresh LOCAL scope under it) and by the include contracts (included file under the global scope).'),
+   note='The loader\'s scope assignment is covered by the per-line and per-line-object blocks of AssemblyFile.load_line_objects (every non-local address label '
+        'opens a fresh LOCAL region under the file scope, .org / .memzone close it, a constant is defined in the region it stands in, a line of an unselected branch '
+        'changes nothing) and by the include contracts (included file under the global scope). The keyword tables are module constants, checked as closed terms '
+        '(evaluated under CPython, superset test).'),
  'C07': dict(tech='contract-based deductive verification (pyvc + z3) of the evaluator; BOUNDED exhaustive stand-in for the parser',
    text='ExpressionNode._compute / get_value / _numeric_value are verified against a recursive spec function taken from the '
         'statement (exact rationals, real quotient, floor-modulus, bit operators on integer parts, byte n of the two\'s-complement '
         'representation, final truncation toward zero; unresolved labels exit).  The recursive-descent parser is NOT within the '
         'generator\'s reach: it is covered by a bounded stand-in (all token sequences up to 4 / 5 tokens over 17 symbols against a '
         'reference evaluator), reported separately and never counted as proved.',
-   note='parser and lexer only bounded; literal notations (parse_numeric_string) not under contract; int.to_bytes after masking is a sampled axiom.'),
+   note='parser and lexer only bounded (quick tier: every token string up to 4 tokens plus every operator chain a op b op c / a op b op c op d, which is what '
+        'associativity needs); parse_numeric_string (which notation a literal is read in, and in that radix) is under contract with int(text, radix) uninterpreted; '
+        'DataLine.generate_bytes hands every data item to the expression parser; int.to_bytes after masking is a sampled axiom.'),
  'C13': dict(tech='contract-based deductive verification (pyvc + z3): first-match loop invariants',
    text='The variant loop (InstructionBytecodeGenerator.generate_bytecode_parts) and the operand-set loop (OperandSet.parse_operand) are '
         'proved to return the result of the FIRST alternative, in list order, whose matcher accepts (and to reject when none does); '
@@ -60,18 +68,23 @@ CLAIMS = {
         'of operand types is a constant lemma over the OperandType enum read from the source.',
    note='Also under contract: OperandSetsModel.find_operands_from_operand_sets (one alternative per position; a match is never a '
         'disallowed combination, compared as an ordered id list). Which strings each operand pattern accepts is regex matching (assumed '
-        'deterministic contracts); explicitly listed (specific) operand combinations and the stable sort of OperandSet.__init__ are not under contract.'),
+        'deterministic contracts); Instruction.__init__ is under contract (the variant list is the definition order: own configuration first, then `variants:`). The walk over explicitly listed (specific) '
+        'operand combinations and the stable sort of OperandSet.__init__ are not under contract.'),
  'C14': dict(tech='contract-based deductive verification (pyvc + z3) of the rejecting kernels + AST audit of the image-write position',
    text='Every byte-producing line has its bytes generated (so unresolvable labels / violated constraints exit) before any output, '
         'reserved sizes are never negative, relative-offset / label-resolution kernels exit exactly as specified; a mechanical audit of '
         'the current engine source shows the image write is unique, guarded only by the generate-binary flag, and followed by nothing that can abort.',
-   note='Termination of the line parser loop and of include / symbol recursion rests on regex-based factories and is not proved; '
+   note='Deleting or replacing a file (os.remove / unlink / rename / replace, shutil.rmtree / move) is in no contract\'s frame: reachable in a function under contract '
+        '(the CLI entry included) it is a failed frame obligation. Fill and data lines evaluate their expressions whatever the count. '
+        'Termination of the line parser loop and of include / symbol recursion rests on regex-based factories and is not proved; '
         'for-loops over finite sequences terminate by construction; environment failures (I/O) out of scope.'),
  'C15': dict(tech='AST audit of set-order-sensitive sites + contract-based proof of order independence (pyvc + z3)',
    text='Every order-sensitive use of a set on the compile path is enumerated from the current source and accepted only by a stated '
         'rule; the one loop whose result could depend on iteration order (include-file lookup) is proved independent of an arbitrary '
         'enumeration of the set.',
-   note='Set-typedness is inferred from annotations and constructors, not proved; C-extension nondeterminism excluded.'),
+   note='Set-typedness is inferred from annotations and constructors, not proved; the audit covers loops, comprehensions, list/tuple/join/enumerate/... conversions, '
+        '*-unpacking and tuple-unpacking of a set, and calls of hash / id / random / time / os.environ / os.getcwd / os.listdir / glob; Assembler.__init__ keeps its arguments '
+        '(nothing of the environment is mixed into the search path); C-extension nondeterminism excluded.'),
  'C19': dict(tech='contract-based deductive verification (pyvc + z3): validation kernels',
    text='Accepted definitions satisfy: required sections present; min_version gates by semantic-version order; no mnemonic (instruction or '
         'macro, any letter case) is a keyword; macro names differ from instruction names; operand counts equal the lengths of operand sets '
@@ -79,29 +92,36 @@ CLAIMS = {
    note='Also under contract: the comparison block of RequiredLanguageLine (#require is rejected exactly when the ISA version does not '
         'satisfy the stated comparison in version order), the register-name loop of AssemblerModel.__init__ (no register is a keyword) and '
         'OperandSetsModel.__init__ (every operand set an instruction refers to is declared). packaging.version ordering is trusted (abstract rank); '
-        '"well-formed definitions are never rejected" (no other exit reachable) are not under contract; Instruction / InstructionMacro construction assumed.'),
+        '"well-formed definitions are never rejected" (no other exit reachable) are not under contract; Instruction / InstructionMacro construction assumed. The keyword tables '
+        '(keywords.py) are checked as closed terms.'),
  'C08': dict(tech='contract-based deductive verification (pyvc + z3): ConditionStack contracts, inert-directive and include gating contracts',
    text='Contracts on the real ConditionStack (process_condition, _push, currently_active, is_muted) against the statement: a branch is '
         'selected iff every enclosing frame is selected, no earlier branch of its chain was, and its own condition holds when the '
         'directive is reached; #else / #elif / #endif parent rules raise exactly for a missing opener; in an unselected branch a '
         'non-conditional directive defines no symbol and no zone (PreprocessorLineFactory.parse_line) and an #include loads nothing '
         '(per-line block of AssemblyFile.load_line_objects).',
-   note='How conditions compare (IfPreprocessorCondition._evaluate_condition) is an assumed deterministic contract (regex + expression '
-        'parsing); the line factories that construct directive lines are assumed with their effects listed in modifies.'),
+   note='How conditions compare (IfPreprocessorCondition._evaluate_condition) is an assumed deterministic contract (regex + expression parsing) backed by a BOUNDED '
+        'stand-in (6 operators x values -N..N and three large ones x 4 notations per side, #if and #elif, and the bare form, against "compare integers; bare means != 0"), never counted as proved; '
+        'the per-line-object block of the loader proves that a line of an unselected branch changes neither region nor zone and defines nothing; included lines are read under the '
+        'includer\'s own condition stack; the line factories that construct directive lines are assumed with their effects listed in modifies.'),
  'C09': dict(tech='contract-based deductive verification (pyvc + z3) of the symbol table and the substitution fixpoint + AST audit of the substitution step',
    text='Preprocessor.create_symbol grows the table by exactly one key or raises for a duplicate; resolve_symbols is proved to return only '
         'when no whole word of the line is a defined symbol (fixpoint) and to exit on a cycle; an audit of the current source accepts the '
         'single rewrite step only in the form re.sub(\\b<escaped symbol>\\b, <value>, line), i.e. whole-word substitution.',
    note='re.sub / re.findall semantics are trusted library facts (uninterpreted words_of / re_sub with the whole-word pattern); that '
-        'substitution happens in definition order is not separately claimed (the fixpoint result does not depend on it when it terminates).'),
+        'substitution happens in definition order is not separately claimed (the fixpoint result does not depend on it when it terminates). Also under contract: '
+        'symbols predefined by the configuration (every entry defined with its text), command-line symbols (an existing definition is never replaced), the #define line '
+        '(its name was not defined before), PreprocessorSymbol.__init__ (the text as given) and two blocks of the line factory (the assembled text is the line before the comment as written; '
+        'substitution precedes parsing and leaves no defined symbol).'),
  'C10': dict(tech='contract-based deductive verification (pyvc + z3): CompositeAssembledInstruction, macro variant search',
    text='CompositeAssembledInstruction.__init__ / get_bytes: a macro occupies exactly the sum of its steps\' sizes and its bytes are, step by '
         'step, what that step emits at address + (sum of the preceding sizes) with its own size (loop invariant over a recursive sum, '
         'induction lemma for the frame); MacroBytecodeGenerator.generate_bytecode_parts returns the expansion of the FIRST variant that '
         'accepts the operands; the head of generate_variant_bytecode_parts accepts a variant only through the operand matcher shared with '
         'instructions (a variant without operands only for a statement without operands).',
-   note='The per-step bytes are an assumed abstraction (ibyte) of the verified AssembledInstruction.get_bytes contract; placeholder '
-        'substitution (@ARG/@REG/@OP string rewriting) and step parsing are not under contract (string replace / regex); '
+   note='The per-step bytes are an assumed abstraction (ibyte) of the verified AssembledInstruction.get_bytes contract; what a placeholder is replaced BY is under contract '
+        '(@OP: every operand type keeps the operand text as written -- the indirect / deferred numeric operand did not, fix d316bf2; @ARG: the argument part\'s expression as written, nothing when '
+        'there is no argument part), the replacement itself is str.replace (uninterpreted) and step parsing regex; '
         'AssembledInstruction.__init__\'s precondition is assumed at the composite\'s super().__init__ call (its result is overwritten).'),
  'C11': dict(tech='contract-based deductive verification (pyvc + z3): data / fill / string emitters',
    text='DataLine.generate_bytes: byte k of the line is byte k % width of value k // width reduced modulo 2**(8*width) in the configured '
@@ -118,7 +138,8 @@ CLAIMS = {
         'hex dump: the library object (modelled by the address-to-byte map it holds) receives exactly those bytes at those addresses. Listing: '
         'the byte column is filled exactly for unmuted lines with at least one byte, from that line\'s bytes, and the address column shows the '
         'assigned address. The image side is the C03 address-to-byte map over the same sorted line list.',
-   note='The token reading of the output text (sio_write) and IntelHex.puts / write_hex_file / dump are trusted; the listing\'s row-splitting '
+   note='The token reading of the output text (sio_write) and IntelHex.puts / write_hex_file / dump are trusted, backed by a BOUNDED stand-in that assembles a fixed family of programs '
+        'with the real CLI and decodes all four formats back to address-to-byte maps (equal to each other and to the image); the listing\'s row-splitting '
         'helper is only covered by a bounded stand-in (lengths 0..64 / 0..400 x widths 1..8); "each statement exactly once" in the listing '
         '(copy + sort with a key function) is not under contract; preconditions: lines sorted by address and non-overlapping (C04).'),
  'C17': dict(tech='contract-based deductive verification (pyvc + z3): AssemblyFile / LabelScope constructors, include handling, per-line loader block, include-directory de-duplication',
@@ -130,7 +151,8 @@ CLAIMS = {
         '(after realpath), in order.',
    note='File reading itself (open / iteration) is outside the subset: load_line_objects is verified per line (block contract) and used '
         'through an assumed abstract contract at the recursive call; the included file starts in the GLOBAL zone, as documented in '
-        'docs/named-memory-zones-requirements.md (read as part of "fresh file state", see DESIGN.md); os.path functions are uninterpreted.'),
+        'docs/named-memory-zones-requirements.md (read as part of "fresh file state", see DESIGN.md); os.path functions are uninterpreted; Assembler.__init__ hands the search '
+        'directories on as given; the included lines are read under the includer\'s condition stack (ghost loaded_under).'),
  'C12': dict(tech='contract-based deductive verification (pyvc + z3): exits-iff contracts on every constrained byte-code part and on bit packing',
    text='Exceptional postconditions (raised IFF condition) on the real get_value of the min/max, memory-zone, enumeration, relative-address '
         'and sliced-address parts, and on PackedBits.append_bits / AssembledInstruction.get_bytes (value fits the signed-or-unsigned range of its field width 1..64).',
